@@ -34,6 +34,7 @@ type blockOp struct {
 	instr ssa.Instruction
 	kind  string   // send, recv, select, wait
 	recvs []string // channel descs of receive alternatives
+	wakes []string // the same channels traced to their origin through locals and closure captures (done := c.DoneChan())
 	sends []string // channel descs of send alternatives
 	dflt  bool
 	desc  string
@@ -48,7 +49,7 @@ func blockingOps(fn *ssa.Function) []blockOp {
 				out = append(out, blockOp{fn: fn, instr: x, kind: "send", sends: []string{poppedChanDesc(x.Chan)}, desc: desc(x.Chan) + "<-"})
 			case *ssa.UnOp:
 				if x.Op == token.ARROW {
-					out = append(out, blockOp{fn: fn, instr: x, kind: "recv", recvs: []string{timerChanDesc(x.X)}, desc: "<-" + desc(x.X)})
+					out = append(out, blockOp{fn: fn, instr: x, kind: "recv", recvs: []string{timerChanDesc(x.X)}, wakes: []string{desc(chanOrigin(x.X, 0))}, desc: "<-" + desc(x.X)})
 				}
 			case *ssa.Select:
 				op := blockOp{fn: fn, instr: x, kind: "select", dflt: !x.Blocking, desc: desc(x)}
@@ -57,6 +58,7 @@ func blockingOps(fn *ssa.Function) []blockOp {
 						op.sends = append(op.sends, desc(st.Chan))
 					} else {
 						op.recvs = append(op.recvs, timerChanDesc(st.Chan))
+						op.wakes = append(op.wakes, desc(chanOrigin(st.Chan, 0)))
 					}
 				}
 				out = append(out, op)
@@ -154,6 +156,7 @@ func poppedChanDesc(ch ssa.Value) string {
 // time.Ticker whatever the variable holding the timer is called (such a receive always completes or is stopped).
 func timerChanDesc(ch ssa.Value) string {
 	d := desc(ch)
+
 	if u, ok := ch.(*ssa.UnOp); ok && u.Op == token.MUL {
 		if fa, ok := u.X.(*ssa.FieldAddr); ok && fieldName(fa.X.Type(), fa.Field) == "C" {
 			ts := strings.TrimPrefix(typeStr(fa.X.Type()), "*")
@@ -163,6 +166,46 @@ func timerChanDesc(ch ssa.Value) string {
 		}
 	}
 	return d
+}
+
+// chanOrigin follows a channel value back through loads of single-store locals and closure captures.
+func chanOrigin(v ssa.Value, d int) ssa.Value {
+	if d > 5 || v == nil {
+		return v
+	}
+	switch x := v.(type) {
+	case *ssa.UnOp:
+		if x.Op == token.MUL {
+			switch a := x.X.(type) {
+			case *ssa.Alloc:
+				if st := singleStore(a); st != nil {
+					return chanOrigin(st, d+1)
+				}
+			case *ssa.FreeVar:
+				fnc := a.Parent()
+				if fnc == nil || fnc.Parent() == nil {
+					return v
+				}
+				for i, fv := range fnc.FreeVars {
+					if fv != a {
+						continue
+					}
+					for _, in := range fnInstrs(fnc.Parent()) {
+						if mc, ok := in.(*ssa.MakeClosure); ok && mc.Fn == ssa.Value(fnc) && i < len(mc.Bindings) {
+							if al, ok := mc.Bindings[i].(*ssa.Alloc); ok {
+								if st := singleStore(al); st != nil {
+									return chanOrigin(st, d+1)
+								}
+							}
+						}
+					}
+				}
+			}
+		}
+	case *ssa.ChangeType:
+		return chanOrigin(x.X, d+1)
+	}
+	return v
 }
 
 // opKey is a structural key: function + kind + channel fields involved (no positions).
@@ -223,6 +266,18 @@ func wakeable(op blockOp, wake func(ch string) bool) (bool, string) {
 		}
 		if wake(r) {
 			return true, "woken by " + r
+		}
+	}
+	// an audited verdict on this very operation outranks what its channel's origin suggests
+	loadAudit()
+	if _, audited := auditTable[opKey(op)]; !audited {
+		for _, r := range op.wakes {
+			if isTimerOrCtx(r) {
+				return true, "timer/context " + r
+			}
+			if wake(r) {
+				return true, "woken by " + r + " (kept in a local)"
+			}
 		}
 	}
 	return false, ""
